@@ -149,7 +149,11 @@ class Held(object):
         o = self.i if s == 'f' else self.f
         if o is None:
             raise RuntimeError('harness: instance no longer held')
-        return o.inv
+        o = o.inv
+        if o is None:
+            # what the caller's next statement (`o.add(...)`, `o.items()`) would run into
+            raise AttributeError("'NoneType' object: .inv of a held half is None")
+        return o
 
     def keep(self, mode):
         """rebind the caller's variables; the references let go of are gone when this returns"""
@@ -160,7 +164,10 @@ class Held(object):
             self.f = self.side('f')
             self.i = None
         elif mode == 'ii':
-            self.f = self.side('f').inv.inv
+            z = self.side('f').inv.inv
+            if z is None:
+                raise AttributeError("'NoneType' object: .inv.inv of a held half is None")
+            self.f = z
             self.i = None
         elif mode == 'fi':
             f, i = self.side('f'), self.side('i')
